@@ -528,6 +528,29 @@ def gen_violating(rng, name, content, force_op=None):
             else:
                 lines[j:j] = [f"{rng.choice(['done', 'out'])}:"]                                       # a label on its own line before the body
         return "\n".join(lines), op
+    if op == "nest_body":
+        # the single statement of a brace-less control statement becomes itself a brace-less loop: with an empty body, or
+        # with the old statement as its body (forced only; never drawn, so the viol pools stay what they were)
+        import re
+        cand = []
+        for j in range(13, len(lines) - 1):
+            m = re.match(r"^(\t+)((if|while|else if) \(|else$)", lines[j])
+            if m and lines[j + 1].strip() != "{" and lines[j + 1].startswith(m.group(1) + "\t") and lines[j + 1].rstrip().endswith(";") \
+                    and not lines[j + 1].lstrip("\t").startswith(("if ", "while ", "else")) \
+                    and not lines[j].rstrip().endswith("&&") and lines[j].count("(") == lines[j].count(")") and lines[j + 1].strip() != ";":
+                cand.append(j + 1)
+        if cand:
+            j = cand[rng.randrange(len(cand))]
+            ind = lines[j][:len(lines[j]) - len(lines[j].lstrip("\t"))]
+            body = lines[j].lstrip("\t")
+            kw = rng.choice(["while (g_x-- > 0)", "while (ft_x(g_x))", "if (g_x)"])
+            if kw.startswith("if") and j + 1 < len(lines) and lines[j + 1].lstrip("\t").startswith("else"):
+                kw = "while (g_x)"         # no dangling else: that would change which statement the else belongs to
+            if kw.startswith("while") and rng.random() < 0.6:
+                lines[j:j + 1] = [f"{ind}{kw}", f"{ind}\t;"]
+            else:
+                lines[j:j + 1] = [f"{ind}{kw}", f"{ind}\t{body}"]
+        return "\n".join(lines), op
     if op == "late_include":
         lines += ["#include <string.h>", ""] if lines and lines[-1] == "" else ["", "#include <string.h>"]
         return "\n".join(lines), op
@@ -626,7 +649,7 @@ def ok_func(name="a.c", body="\treturn (0);\n", fname="main"):
     return header42(name) + f"\nint\t{fname}(void)\n{{\n{body}}}\n"
 
 
-def specials(depth_family=False):
+def specials(depth_family=False, enc_family=False):
     """[(name, content, tag)] hand-made members; their class is measured, the tag is only a label."""
     out = []
     H = header42
@@ -736,6 +759,17 @@ def specials(depth_family=False):
     # #if expressions nested d parentheses deep, one depth per file: the constant-expression parser runs under an absolute
     # recursion limit, so somewhere in this range the answer flips from a verdict to "too complex" - where exactly depends
     # on how deep the caller's stack already is (which must be the same for every input channel and option)
+    if enc_family:
+        # files in a legacy 8-bit encoding (a lone surrogate in the scenario text is one raw byte on the simulated disk) and
+        # UTF-8 files whose non-ASCII characters sit where columns matter: what a decoder remembered across files would shift
+        acc = "\u00e9\u00e8\u00e0\u00f9\u00e7\u00ea"
+        out.append(("enc_latin1.c", ok_func("enc_latin1.c") + "// caf\udce9 cr\udce8me br\udcfbl\udce9e\n", "stress"))
+        out.append(("enc_latin1.h", H("enc_latin1.h") + "\n#ifndef ENC_LATIN1_H\n# define ENC_LATIN1_H\n\n// d\udce9j\udce0 vu\n#endif\n", "stress"))
+        out.append(("enc_cp1252.c", ok_func("enc_cp1252.c", body="\tft_putstr(\"\udc93quoted\udc94 \udc80\");\n\treturn (0);\n"), "stress"))
+        out.append(("enc_utf8_cols78.c", ok_func("enc_utf8_cols78.c") + "// " + (acc * 13)[:75] + "\n", "literal"))
+        out.append(("enc_utf8_cols81.c", ok_func("enc_utf8_cols81.c") + "// " + (acc * 13)[:78] + "\n", "literal"))
+        out.append(("enc_utf8_str.c", ok_func("enc_utf8_str.c", body="\tft_putstr(\"" + (acc * 11)[:62] + "\");\n\treturn (0);\n"), "literal"))
+        out.append(("enc_utf8_bom.c", "\ufeff" + ok_func("enc_utf8_bom.c"), "literal"))
     for d in (range(44, 90) if depth_family else ()):
         out.append((f"depth_if{d}.c", header42(f"depth_if{d}.c") + "\n#if " + "(" * d + "1" + ")" * d + "\n# define A 1\n#endif\n\nint\tmain(void)\n{\n\treturn (0);\n}\n", "depth"))
     # line-break-like characters (which are NOT line breaks for a C source) inside multi-line tokens at the very end of a file,
